@@ -192,6 +192,14 @@ def make_api(case):
             with inc.start_update():
                 for name, t, bits, off in items:
                     inc.add_field(name, t, bits=bits, offset=off)
+        elif mode == "aborted-last":   # the batch that added every member is left by an exception the caller handles
+            try:
+                with inc.start_update():
+                    for name, t, bits, off in items:
+                        inc.add_field(name, t, bits=bits, offset=off)
+                    raise KeyError("caller's own error inside the batch")
+            except KeyError:
+                pass
         else:   # a batch left by an exception after the first two members, the rest added normally
             try:
                 with inc.start_update():
@@ -217,7 +225,12 @@ def make_api(case):
                 out.append(("error", H.classify(e), None))
         ctx.check("same parse outcome", out[0][0] == out[1][0], f"{out[0][:2] if out[0][0] == 'error' else 'value'} vs {out[1][:2] if out[1][0] == 'error' else 'value'}")
         if out[0][0] == out[1][0] == "value":
-            ctx.check("same values", R.And(*[getattr(out[0][1], f"f{i}") == getattr(out[1][1], f"f{i}") for i in range(len(plan))]))
+            try:
+                same = R.And(*[getattr(out[0][1], f"f{i}") == getattr(out[1][1], f"f{i}") for i in range(len(plan))])
+            except AttributeError as e:
+                same = False
+                ctx.check("every member is an attribute of the parsed value", False, H.classify(e))
+            ctx.check("same values", same)
             ctx.check("same position", out[0][2] == out[1][2])
             try:
                 ctx.check("same dump", R.bytes_eq(out[0][1].dumps(), out[1][1].dumps()))
@@ -269,7 +282,7 @@ FLAG_TEXTS = [
 
 def cases(tier, seed):
     for i, plan in enumerate(API_PLANS):
-        for mode in ("each", "batch", "aborted"):
+        for mode in ("each", "batch", "aborted", "aborted-last"):
             for e in "<>":
                 for a in (False, True):
                     for c in (False, True):
